@@ -402,6 +402,7 @@ func (w *World) prelude(usedLits map[string]bool) string {
 		if f.Builtin {
 			continue
 		}
+		w.resolveSpecFun(f)
 		fmt.Fprintf(&b, "(declare-fun %s (%s) %s)\n", f.SMTName, strings.Join(f.ParamSorts, " "), f.Ret)
 	}
 	return b.String()
